@@ -2,6 +2,7 @@
 #include <stdlib.h>
 #include <string.h>
 #include "muggle/c/log/log.h"
+#include "muggle/c/base/err.h"
 #include "muggle/c/os/sys.h"
 
 //--------------------------------------------------
@@ -306,16 +307,24 @@ void muggle_socket_evloop_handle_attach(
 	muggle_evloop_set_cb_exit(evloop, muggle_socket_evloop_on_exit);
 }
 
-void muggle_socket_evloop_add_ctx(
+int muggle_socket_evloop_add_ctx(
 	muggle_event_loop_t *evloop,
 	muggle_socket_context_t *ctx)
 {
 	muggle_socket_evloop_handle_t *handle = (muggle_socket_evloop_handle_t*)evloop->sys_data;
 	muggle_mutex_lock(handle->mtx);
-	muggle_queue_enqueue(handle->ctx_queue, ctx);
+	muggle_queue_node_t *node = muggle_queue_enqueue(handle->ctx_queue, ctx);
 	muggle_mutex_unlock(handle->mtx);
 
+	if (node == NULL)
+	{
+		// not queued: the context still belongs to the caller
+		return MUGGLE_ERR_MEM_ALLOC;
+	}
+
 	muggle_evloop_wakeup(evloop);
+
+	return 0;
 }
 
 void muggle_socket_evloop_handle_set_timer_interval(
